@@ -7,6 +7,7 @@ Theorems about `BRV.Repo.processHeader` (Model/RepoOps.lean), for EVERY reposito
 source by the extracted `Facts.processHeaderCheckOrder`.
 -/
 import BRV.Proofs.RepoBasics
+import BRV.Proofs.RepoExample
 
 namespace BRV.Repo
 
@@ -55,6 +56,37 @@ theorem C08_known_n_times (r : Repo) (h : Hdr) (ok : Bool) (pb : Nat) (ph : Int)
     simp only [List.replicate_succ, List.foldl_cons]
     rw [C08_known_idempotent r h ok pb ph hb hw hparent hknown]
     exact ih
+
+/-- **C08 (reference verdict, converse: what passes the rules IS accepted).** In every state reached
+    by submissions from genesis, a header that passes every check is added and answered `ok`: no
+    internal error (parent lookup, work conversion, `Longest()`, branch update) can intervene. -/
+theorem C08_passed_is_accepted (r : Repo) (h : Hdr) (ok : Bool) (hs : StreamWF r) (hlv : r.longest < r.arena.length)
+    (hnc : ∀ pb ph lst, precheck r h ok = .inr (pb, ph, lst) →
+      Int.tmod ((r.br pb).height + 1) (Facts.autoCleanModulus : Int) ≠ 0)
+    (pb : Nat) (ph : Int) (lst : HData) (hpc : precheck r h ok = .inr (pb, ph, lst)) :
+    (processHeader r h ok).2.verdict = .ok :=
+  passed_verdict_ok r h ok hs hlv hnc pb ph lst hpc
+
+/-- **C08 (re-submitting an accepted header succeeds and changes nothing).** After a header was
+    accepted, submitting it again — any number of times — is answered "already known" and leaves
+    every field of the repository as it is, with nothing announced. -/
+theorem C08_accepted_then_known (r : Repo) (h : Hdr) (ok : Bool) (hs : StreamWF r) (hlv : r.longest < r.arena.length)
+    (hnc : ∀ pb ph lst, precheck r h ok = .inr (pb, ph, lst) →
+      Int.tmod ((r.br pb).height + 1) (Facts.autoCleanModulus : Int) ≠ 0)
+    (pb : Nat) (ph : Int) (lst : HData) (hpc : precheck r h ok = .inr (pb, ph, lst)) (n : Nat) :
+    processHeader (processHeader r h ok).1 h ok = ((processHeader r h ok).1, { verdict := .known, events := [] }) ∧
+    (List.replicate n h).foldl (fun s x => (processHeader s x ok).1) (processHeader r h ok).1 = (processHeader r h ok).1 := by
+  have hF := streamWF_processHeader r h ok hs hnc
+  have hpass := precheck_inr r h ok pb ph lst hpc
+  obtain ⟨⟨b1, hheld⟩, ⟨b2, hheldp⟩⟩ := passed_then_held r h ok hs hlv hnc pb ph lst hpc
+  obtain ⟨_, _, _, _, _, hdd⟩ := passed_state r h ok hs hlv hnc pb ph lst hpc
+  have hknown := branchesFind_of_held _ hF.chain.wf.ids b1 h.id _ hheld
+  have hparent := branchesFind_of_held _ hF.chain.wf.ids b2 h.prev _ hheldp
+  obtain ⟨x, hx⟩ := Option.isSome_iff_exists.mp hparent
+  obtain ⟨pb', ph'⟩ := x
+  have hwork : (processHeader r h ok).1.disableDifficulty = true ∨ ok = true := by rw [hdd]; exact hpass.workOk
+  exact ⟨C08_known_idempotent _ h ok pb' ph' hpass.bitsOk hwork hx hknown,
+    C08_known_n_times _ h ok pb' ph' n hpass.bitsOk hwork hx hknown⟩
 
 /-- **C08 (too deep).** A header whose parent is held but already has a successor in its branch,
     `depth = best height − parent height > MaxBranchDepth`, is refused as beyond the maximum branch
@@ -105,5 +137,11 @@ example : precheck exRepo { id := 1, prev := 0, bits := 0x1d00ffff, time := 2 } 
     = .inr (0, 0, { hdr := { id := 0, prev := 99, bits := 0x1d00ffff, time := 1 }, work := 4295032833 }) := by decide
 example : (processHeader exRepo { id := 1, prev := 0, bits := 0x1d00ffff, time := 2 } true).2.verdict = .ok := by decide
 example : (processHeader exRepo { id := 0, prev := 99, bits := 0x1d00ffff, time := 1 } true).2.verdict = .unknown := by decide
+
+/-- the hypotheses of the two theorems above are met by the genesis-only repository and a first header. -/
+example : StreamWF genesisRepo ∧ genesisRepo.longest < genesisRepo.arena.length ∧
+    precheck genesisRepo { id := 1, prev := 0, bits := 0x1d00ffff, time := 2 } true
+      = .inr (0, 0, { hdr := { id := 0, prev := 99, bits := 0x1d00ffff, time := 1 }, work := 4295032833 }) :=
+  ⟨genesisRepo_streamWF, by decide, by decide⟩
 
 end BRV.Repo
